@@ -87,7 +87,16 @@ func impostor() {
 		go srv.Serve(l)
 	}
 	line := fmt.Sprintf("1|1|unix|%s|%s|%s", sock, proto, base64.RawStdEncoding.EncodeToString(derA))
+	switch cfg.ImpAnnounce {
+	case "none":
+		line = fmt.Sprintf("1|1|unix|%s|%s", sock, proto)
+	case "short":
+		line = fmt.Sprintf("1|1|unix|%s|%s|abc", sock, proto)
+	}
 	if os.Getenv("PLUGIN_MULTIPLEX_GRPC") != "" {
+		if cfg.ImpAnnounce == "none" {
+			line += "|"
+		}
 		line += "|true"
 	}
 	fmt.Println(line)
